@@ -127,6 +127,9 @@ def _t01_regen(repo=None):
 
         def _back():
             try:
+                import fcntl
+                _lk = open(os.path.join(root, "build", "regen-T01.lock"), "w")
+                fcntl.flock(_lk, fcntl.LOCK_EX)   # not while another run is between regeneration and coqc
                 e = dict(os.environ, VERIF_REPO="/repo"); e.pop("TRANS_SFX", None); e.pop("TRANS_OUT", None)
                 subprocess.run([regen, "/repo"], timeout=600, env=e, stdout=subprocess.DEVNULL, stderr=subprocess.DEVNULL)
             except Exception:
